@@ -7,7 +7,7 @@ use refm::field::{Prime, M62, M64};
 use refm::rescue::{Layout, Rescue};
 use winter_crypto::hashers::{Rp62_248, Rp64_256, RpJive64_256};
 use winter_crypto::{Digest, ElementHasher, Hasher};
-use winter_math::fields::{f62, f64};
+use winter_math::fields::{f62, f64, CubeExtension, QuadExtension};
 use winter_math::{FieldElement, StarkField};
 
 use crate::c15::INTS;
@@ -170,6 +170,26 @@ where
             }
         }
     }
+    // hash_elements of quadratic and cubic extension elements: the sponge absorbs their base-field
+    // coefficients in order (padding decided by the number of base elements)
+    for len in 0..=24usize {
+        for rot in 0..3 {
+            let vals: Vec<u128> = (0..len * 2).map(|i| elems[(i * 2 + rot) % elems.len()]).collect();
+            let list: Vec<QuadExtension<B64>> = vals.chunks(2).map(|c| QuadExtension::new(B64::new(c[0] as u64), B64::new(c[1] as u64))).collect();
+            s.evals += 1;
+            s.nontrivial += 1;
+            if H::hash_elements(&list).as_bytes() != digest_bytes(&r.hash_elements(l, &vals)) {
+                s.fail(format!("wrong:{name}:hash_elements_quadratic"), format!("{name}/hash_elements/quad/len={len}/rot={rot}"), format!("{name}::hash_elements of {len} quadratic elements differs from the documented sponge over their {} base coefficients", len * 2));
+            }
+            let vals: Vec<u128> = (0..len * 3).map(|i| elems[(i * 2 + rot) % elems.len()]).collect();
+            let list: Vec<CubeExtension<B64>> = vals.chunks(3).map(|c| CubeExtension::new(B64::new(c[0] as u64), B64::new(c[1] as u64), B64::new(c[2] as u64))).collect();
+            s.evals += 1;
+            s.nontrivial += 1;
+            if H::hash_elements(&list).as_bytes() != digest_bytes(&r.hash_elements(l, &vals)) {
+                s.fail(format!("wrong:{name}:hash_elements_cubic"), format!("{name}/hash_elements/cubic/len={len}/rot={rot}"), format!("{name}::hash_elements of {len} cubic elements differs from the documented sponge over their {} base coefficients", len * 3));
+            }
+        }
+    }
     // digests for merge*: produced by the hasher itself
     let ds: Vec<H::Digest> = (0..4).map(|i| H::hash_elements(&[B64::new(i as u64 + 1)])).collect();
     let dv = |d: &H::Digest| -> Vec<u128> { (0..4).map(|i| u64::from_le_bytes(d.as_bytes()[8 * i..8 * i + 8].try_into().unwrap()) as u128).collect() };
@@ -311,6 +331,24 @@ fn rules62(r: &Rescue, l: &Layout, max_bytes: usize, s: &mut Sweep) {
             }
         }
     }
+    for len in 0..=24usize {
+        for rot in 0..3 {
+            let vals: Vec<u128> = (0..len * 2).map(|i| elems[(i * 2 + rot) % elems.len()]).collect();
+            let list: Vec<QuadExtension<B62>> = vals.chunks(2).map(|c| QuadExtension::new(B62::new(c[0] as u64), B62::new(c[1] as u64))).collect();
+            s.evals += 1;
+            s.nontrivial += 1;
+            if H::hash_elements(&list).as_bytes() != pack(&r.hash_elements(l, &vals)) {
+                s.fail(format!("wrong:{name}:hash_elements_quadratic"), format!("{name}/hash_elements/quad/len={len}/rot={rot}"), format!("{name}::hash_elements of {len} quadratic elements differs from the documented sponge over their {} base coefficients", len * 2));
+            }
+            let vals: Vec<u128> = (0..len * 3).map(|i| elems[(i * 2 + rot) % elems.len()]).collect();
+            let list: Vec<CubeExtension<B62>> = vals.chunks(3).map(|c| CubeExtension::new(B62::new(c[0] as u64), B62::new(c[1] as u64), B62::new(c[2] as u64))).collect();
+            s.evals += 1;
+            s.nontrivial += 1;
+            if H::hash_elements(&list).as_bytes() != pack(&r.hash_elements(l, &vals)) {
+                s.fail(format!("wrong:{name}:hash_elements_cubic"), format!("{name}/hash_elements/cubic/len={len}/rot={rot}"), format!("{name}::hash_elements of {len} cubic elements differs from the documented sponge over their {} base coefficients", len * 3));
+            }
+        }
+    }
     // merge / merge_many / merge_with_int: digests are produced by the reference *and* the
     // implementation from the same element lists, so their element values are known
     let seeds: Vec<Vec<u128>> = (0..4).map(|i| vec![i as u128 + 1]).collect();
@@ -416,7 +454,7 @@ pub fn run(args: &Args) {
     rules64::<Rp64_256>("Rp64_256", &r64, &l64, max_bytes, &mut s);
     rules64::<RpJive64_256>("RpJive64_256", &rj, &lj, max_bytes, &mut s);
     rules62(&r62, &l62, max_bytes, &mut s);
-    s.into_report("absorption rules", json!({"hash_byte_lengths": format!("0..={max_bytes}"), "hash_elements_lists": "0..=40", "merge_many": "0..=5", "rp62_single_block_inputs": 6561}), &mut report);
+    s.into_report("absorption rules", json!({"hash_byte_lengths": format!("0..={max_bytes}"), "hash_elements_lists": "0..=40 base, 0..=24 quadratic and cubic", "merge_many": "0..=5", "rp62_single_block_inputs": 6561}), &mut report);
 
     report.sample(json!({"hasher": "Rp64_256", "function": "apply_permutation", "state": "[0,1,-1,0,0,0,0,0,0,0,0,0]", "oracle": "7 rounds of x^7, dense 12x12 MDS, ARK1, x^(1/7), MDS, ARK2 over canonical integers"}));
     report.sample(json!({"hasher": "Rp62_248", "function": "hash", "input": "57 bytes", "oracle": "9 elements from 7-byte chunks, last one followed by a 1 byte, count 9 in the capacity"}));
